@@ -1,6 +1,7 @@
 (* C13 — Panic silences the current channel and leaves the device consistent. *)
 From Coq Require Import List NArith ZArith.
-From HIDI Require Import Base.AList Model.Device Proofs.DeviceBasics Proofs.Recv Proofs.DeviceActions Proofs.DevicePanic.
+From HIDI Require Import Base.AList Model.Device Proofs.DeviceBasics Proofs.Recv Proofs.DeviceActions Proofs.DevicePanic
+  Proofs.DevicePanicSim.
 Import ListNotations.
 Open Scope N_scope.
 
@@ -42,3 +43,52 @@ Example C13_example :
   panic_triggers c (fst (run c [EKey 0 30 1])) 1 /\
   map (fun o => length (midi o)) (snd (run c [EKey 0 30 1; EKey 0 1 1; EKey 0 1 0; EKey 0 30 0])) = [1; 129; 0; 1]%nat.
 Proof. cbv zeta. split; [split; [reflexivity|split; [reflexivity|intros []; reflexivity]]|vm_compute; reflexivity]. Qed.
+
+(* transparency in general, without "no other panic source is engaged": [panic_eq s s'] = every field equal except the
+   action tracker, and the action trackers equal apart from Panic.  Every event (keys, axis samples including
+   action-emulating axes that track Panic themselves, EV_SYN) maps related states to related states with the same
+   output, so nothing observable ever depends on the difference. *)
+Theorem C13_step_sim : forall c s s' e,
+  panic_eq s s' -> snd (step c s e) = snd (step c s' e) /\ panic_eq (fst (step c s e)) (fst (step c s' e)).
+Proof. exact step_panic_eq. Qed.
+Print Assumptions C13_step_sim.
+
+Theorem C13_transparent_general : forall c h1 sub sub' k h2,
+  let s1 := fst (run c h1) in
+  panic_triggers c s1 k -> ~ In k (keys_down h1) ->
+  snd (run c (h1 ++ EKey sub k 1 :: EKey sub' k 0 :: h2)) =
+    snd (run c h1) ++ emit (panic_burst (channel s1)) :: silent :: snd (run_from c s1 h2)
+  /\ snd (run c (h1 ++ h2)) = snd (run c h1) ++ snd (run_from c s1 h2)
+  /\ panic_eq (fst (run c (h1 ++ EKey sub k 1 :: EKey sub' k 0 :: h2))) (fst (run c (h1 ++ h2))).
+Proof. exact panic_transparent_general. Qed.
+Print Assumptions C13_transparent_general.
+
+(* what the two final states agree on *)
+Theorem C13_transparent_observables : forall c h1 sub sub' k h2,
+  let s1 := fst (run c h1) in
+  panic_triggers c s1 k -> ~ In k (keys_down h1) ->
+  let s := fst (run c (h1 ++ EKey sub k 1 :: EKey sub' k 0 :: h2)) in
+  let s' := fst (run c (h1 ++ h2)) in
+  octave s = octave s' /\ semitone s = semitone s' /\ channel s = channel s' /\ velocity s = velocity s' /\
+  mapidx s = mapidx s' /\ learning s = learning s' /\ noteT s = noteT s' /\ analogT s = analogT s' /\
+  counter s = counter s' /\ ccZ s = ccZ s' /\ keyT s = keyT s' /\
+  (forall a, a <> Panic -> has_action s a = has_action s' a) /\
+  (forall pk, pair_complete (actionT s) pk = pair_complete (actionT s') pk).
+Proof. exact panic_transparent_observables. Qed.
+Print Assumptions C13_transparent_observables.
+
+(* two keys mapped to Panic, the first held while the second is pressed and released: the hypotheses of the general
+   theorem hold, Panic is engaged, and the final states differ (in the action tracker only) - the relation is needed *)
+Example C13_two_panic_keys :
+  let c := {| mappings := [{| m_name := 0; m_midi := [((0, 30), {| k_note := 60; k_off := 0 |})]; m_analog := [] |}];
+              actions := [(1, Panic); (2, Panic)]; exitseq := []; cmode_of := CNoRepeat;
+              d_octave := 0; d_semitone := 0; d_channel := 3; d_mapping := 0; d_velocity := 64 |} in
+  let h1 := [EKey 0 1 1] in
+  let h2 := [EKey 0 30 1] in
+  let s1 := fst (run c h1) in
+  panic_triggers c s1 2 /\ ~ In 2 (keys_down h1) /\ In Panic (actionT s1) /\
+  actionT (fst (run c (h1 ++ EKey 0 2 1 :: EKey 0 2 0 :: h2))) = [] /\
+  actionT (fst (run c (h1 ++ h2))) = [Panic] /\
+  fst (run c (h1 ++ EKey 0 2 1 :: EKey 0 2 0 :: h2)) <> fst (run c (h1 ++ h2)) /\
+  map (fun o => length (midi o)) (snd (run c (h1 ++ EKey 0 2 1 :: EKey 0 2 0 :: h2))) = [129; 129; 0; 1]%nat.
+Proof. exact two_panic_keys. Qed.
